@@ -60,3 +60,71 @@ def run(M, rep, tier, only=None):
     for rid in list(rep.rules):
         if rid.startswith("_"):
             del rep.rules[rid]
+    _r4(M, rep, ctx)
+
+
+# HDF5 property-list operations and what they mean for "flushed data can be opened after a kill" (HDF5 reference manual):
+#   neutral   : no influence on what is on disk after H5Fflush / on whether the file opens afterwards
+#   hazard(f) : f(event) -> reason string when the setting breaks it
+def _libver(ev):
+    from nixsa.values import show
+    low = ev.args[0] if ev.args else ev.kw.get("low")
+    s = show(low.t) if low is not None else "?"
+    if "LIBVER_EARLIEST" in s:
+        return None
+    return ("a low library-version bound of %s selects a superblock version (>= 2) that carries a 'file is open for "
+            "writing' consistency flag; it is cleared only by a clean close, so a file that was flushed and then killed is "
+            "refused by HDF5 on the next open" % s)
+
+
+def _core(ev):
+    from nixsa.values import show, is_const
+    bs = ev.kw.get("backing_store") or (ev.args[1] if len(ev.args) > 1 else None)
+    if bs is not None and is_const(bs) and not bs.t[1]:
+        return "the in-memory (core) driver without backing store never writes the file"
+    return "the in-memory (core) driver writes the file only when it is closed, a flush leaves nothing on disk"
+
+
+PLIST_OPS = {
+    "set_link_creation_order": None, "set_attr_creation_order": None, "set_fclose_degree": None, "set_cache": None,
+    "set_sieve_buf_size": None, "set_meta_block_size": None, "set_alignment": None, "set_userblock": None,
+    "set_sizes": None, "set_sym_k": None, "set_istore_k": None, "set_char_encoding": None, "set_fapl_sec2": None,
+    "set_create_intermediate_group": None, "set_file_space_strategy": None, "set_chunk_cache": None, "set_gc_references": None,
+    "set_libver_bounds": _libver, "set_fapl_core": _core,
+    "copy": None, "equal": None, "get_class": None, "close": None,
+}
+
+
+def _r4(M, rep, ctx):
+    """R4: the property lists used to create/open the HDF5 file carry no setting that makes a flushed file unopenable"""
+    from nixsa.model import AnalysisError
+    R4 = rep.rule("C17.R4", "file creation/access property lists keep flushed files openable after a kill", floor=1,
+                  technique="classification of every HDF5 property-list operation reaching h5f.create/open (HDF5 semantics table)")
+    f = ctx.member("File", "__init__")
+    if f is None:
+        rep.bad(R4, "File.__init__", "required mechanism not found")
+        return
+    seen = {}
+    bad = None
+    for p in ctx.paths(f, "File"):
+        for e in p.events:
+            if e.kind == "raw" and e.op.startswith("plist."):
+                m = e.op.split(".", 1)[1]
+                if m.startswith("get_"):
+                    continue
+                if m not in PLIST_OPS:
+                    raise AnalysisError("C17.R4: HDF5 property-list operation %s at %s is not in the analyser's table "
+                                        "(cannot classify its effect on durability)" % (m, e.site))
+                seen.setdefault(m, e.site)
+                h = PLIST_OPS[m]
+                why = h(e) if h else None
+                if why:
+                    bad = (p, e, why)
+            if e.kind == "raw" and e.op in ("h5py.h5f.open", "h5py.h5f.create"):
+                fl = e.kw.get("flags")
+                from nixsa.values import show
+                if fl is not None and "SWMR" in show(fl.t):
+                    bad = (p, e, "single-writer/multiple-reader mode changes the on-disk consistency protocol")
+    rep.check(R4, "File.__init__", bad is None, "File.__init__ configures HDF5 so that %s" % (bad[2] if bad else ""),
+              site=bad[1].site if bad else f.file, detail=describe_path(bad[0]) if bad else None,
+              what="property-list operations: %s" % sorted(seen))
